@@ -29,7 +29,8 @@ LEVEL_TEXT = (
     "The real UDPTunnel talks to a scripted gateway on the virtual loop. The n-th TunnellingRequest transmission the gateway sees "
     "is answered according to the n-th letter of a behaviour string over {ok, lost, late 1.5 s, duplicate, stale (previous counter), "
     "other channel, error status}; ALL strings up to the stated length are run for 3 sends issued sequentially, concurrently and "
-    "staggered, with and without auto-reconnect; every string up to a shorter bound is also run with a server DisconnectRequest "
+    "staggered, with and without auto-reconnect, with user disconnect()/connect() cycles on the same tunnel object between the "
+    "sends, and with the gateway handing out a fresh / the same / a recycled channel id for every connection; every string up to a shorter bound is also run with a server DisconnectRequest "
     "injected at every event-loop iteration of its own baseline run (and in the middle of every sleep), combined with handshake "
     "faults of the reconnect (ConnectResponse late by 0.01/0.5/0.7/0.9/1.2/2.5 s, first one lost, DisconnectResponse lost) and "
     "with route_back / a route-back data endpoint. Plus counter wrap-around runs (300 sends) over UDP, TCP and the secure "
@@ -50,14 +51,15 @@ SHARDS = {"quick": 1, "thorough": 16}
 TIMEOUT = {"quick": 300, "thorough": 3000}
 
 LETTERS = {"o": "ok", "l": "lost", "t": "late", "d": "dup", "s": "stale", "w": "wrongch", "e": "err"}
-MODES = ("seq", "conc", "stag", "seq-noauto")
+MODES = ("seq", "conc", "stag", "seq-noauto", "seq-reuse", "seq-noauto-reuse")
 
 
 CONNECT_FAULTS = ("d0.01", "d0.5", "d0.7", "d0.9", "d1.2", "d2.5", "lost1", "disc-lost")
 
 
 def run_case(script, mode="seq", n_sends=3, inject_at=None, transport="udp", faults=None, auto_reconnect_wait=3,
-             server_disc_after_tx=None, inject_frac=0.0, connect_fault=None, route_back=False, gw_route_back=False):
+             server_disc_after_tx=None, inject_frac=0.0, connect_fault=None, route_back=False, gw_route_back=False,
+             channel_policy="increasing"):
     """Run one scenario; returns (history, iterations, driver error).
 
     connect_fault shapes the handshakes of RE-connections (the user's first connect() is answered promptly):
@@ -72,6 +74,7 @@ def run_case(script, mode="seq", n_sends=3, inject_at=None, transport="udp", fau
     else:
         gw = Gateway(loop)
     gw.data_endpoint_route_back = gw_route_back
+    gw.channel_policy = channel_policy
     box = {"n": 0}
     if connect_fault is not None:
         if connect_fault.startswith("d") and connect_fault[1].isdigit():
@@ -86,7 +89,7 @@ def run_case(script, mode="seq", n_sends=3, inject_at=None, transport="udp", fau
         gw.ack_policy = lambda n, body: LETTERS[fl[n]] if n in fl else "ok"
     else:
         gw.ack_policy = lambda n, body: LETTERS[script[n]] if n < len(script) else "ok"
-    auto = mode != "seq-noauto"
+    auto = "noauto" not in mode
 
     def inject():
         if not gw.is_open:  # the server only disconnects a connection it has confirmed to the client
@@ -139,7 +142,19 @@ def run_case(script, mode="seq", n_sends=3, inject_at=None, transport="udp", fau
         except CommunicationError:
             gw.note("initial_connect_failed")
             return
-        if mode in ("seq", "seq-noauto"):
+        if mode.endswith("reuse"):
+            # object reuse: the user closes and re-opens the connection on the same tunnel object between the sends
+            for i in range(n_sends):
+                await send(tunnel, i + 1)
+                if i < n_sends - 1:
+                    gw.note("user_cycle")
+                    await tunnel.disconnect()
+                    await asyncio.sleep(0.5 * (i % 2))
+                    try:
+                        await tunnel.connect()
+                    except CommunicationError:
+                        gw.note("reconnect_by_user_failed")
+        elif mode in ("seq", "seq-noauto"):
             for i in range(n_sends):
                 await send(tunnel, i + 1)
                 if transport != "udp":  # no ACK to wait for: pace the sends so that server events fall between them
@@ -333,6 +348,11 @@ def judge_case(ctx, script, mode, inject_at=None, transport="udp", n_sends=3, sa
             ctx.count("reconnects_completed_under_connect_fault")
     if kw.get("route_back"):
         ctx.count("runs_route_back")
+    if kw.get("channel_policy"):
+        ctx.count(f"runs_channel_ids_{kw['channel_policy']}")
+        chans = [i["ch"] for _t, k, i in log if k == "rx" and i.get("type") == "ConnectResponse"]
+        ctx.count("reconnects_with_the_same_channel_id", sum(1 for a, b in zip(chans, chans[1:]) if a == b))
+    ctx.count("user_reconnects_on_same_object", sum(1 for _t, k, _i in log if k == "user_cycle"))
     late = sum(1 for (_t, k, i), (_t2, k2, i2) in zip(log, log[1:])
                if k == "send_fail" and k2 == "rx" and i2.get("type") == "ConnectResponse")
     if late:
@@ -376,7 +396,8 @@ def _run(ctx):
                 "event-kind string of the wire history)")
     ctx.require("tx_requests", "acks_delivered", "repetitions", "epochs", "send_ok", "send_fail", "foreign_acks_delivered",
                 "server_disconnects_injected", "runs_conc_udp", "runs_seq_tcp", "runs_seq_secure", "runs_conc_secure",
-                "epochs_secure", "tx_requests_secure", "frames_on_later_connection_secure", "frames_on_later_connection_tcp", "runs_route_back",
+                "epochs_secure", "tx_requests_secure", "runs_channel_ids_constant", "runs_channel_ids_recycled",
+                "reconnects_with_the_same_channel_id", "user_reconnects_on_same_object", "runs_seq-reuse_udp", "runs_seq-noauto-reuse_udp", "frames_on_later_connection_secure", "frames_on_later_connection_tcp", "runs_route_back",
                 "reconnects_completed_under_connect_fault", "connect_response_right_after_failed_send",
                 *(f"runs_connect_fault_{cf}" for cf in CONNECT_FAULTS))
     assert set(LETTERS.values()) == set(ACK_BEHAVIOURS)
@@ -387,6 +408,8 @@ def _run(ctx):
             if not ctx.mine(i):
                 continue
             judge_case(ctx, script, mode, sample=script in ("ls", "low", "td") and mode == "seq")
+            if mode in ("seq", "seq-reuse"):
+                judge_case(ctx, script, mode, channel_policy="constant")
     ctx.extra["strings_enumerated"] = sum(len(LETTERS) ** k for k in range(n_all + 1))
     ctx.extra["bound"] = {"behaviour_string_length": n_all, "sends": 3, "disconnect_injection_string_length": n_inj}
 
@@ -401,9 +424,11 @@ def _run(ctx):
                 judge_case(ctx, script, mode, inject_at=k)
             # the same, with slow / lost handshakes of the reconnect, route_back, and in the middle of sleeps
             points = [(k, 0.0) for k in range(iters)] + [(k, 0.5) for k in sleeps]
-            variants = [{"connect_fault": cf} for cf in CONNECT_FAULTS] + [{"route_back": True}, {"gw_route_back": True}]
+            variants = [{"connect_fault": cf} for cf in CONNECT_FAULTS] + [{"route_back": True}, {"gw_route_back": True},
+                                                                          {"channel_policy": "constant"},
+                                                                          {"channel_policy": "recycled"}]
             if ctx.quick and script not in ("", "l", "ll", "lt"):
-                variants = [{"connect_fault": "d0.7"}, {"connect_fault": "lost1"}]
+                variants = [{"connect_fault": "d0.7"}, {"connect_fault": "lost1"}, {"channel_policy": "constant"}]
             for k, frac in points:
                 for kw in variants:
                     if kw.get("connect_fault") is None and frac:
